@@ -21,6 +21,14 @@
 (* whatever happened before or happens concurrently, every returned signature is over the signing  *)
 (* root built with the domain of the request's OWN type and epoch.  The protocol specified here is *)
 (* memoryless; an implementation may remember domains, but only transparently (Recall).            *)
+(* The same holds for the SIGNING phase: signer calls take time (SignStart ... SignEnd), requests  *)
+(* of neighbouring slots and of the sync committee jobs run beside each other on the one service   *)
+(* (beaconcommitteesubscriber: one goroutine per slot calling SignSlotSelections; sync committee   *)
+(* messenger / aggregator jobs), and what a signer call of request r is handed is r's OWN accounts *)
+(* and messages, whatever other requests started, signed or returned meanwhile (HandedOwn); the    *)
+(* working storage of the split (groups, index maps) belongs to the request.  The only state the   *)
+(* property makes persistent on the instance is NONE; a reply, once returned, belongs to the       *)
+(* caller (ReplyStable).                                                                           *)
 (*                                                                                                *)
 (* One action per interface call of the Go code (r = the request it belongs to):                  *)
 (*   Call(r, c)       a duty service calls one of the Sign* methods                               *)
@@ -29,9 +37,13 @@
 (*   DomainResp(r)    the provider's reply arrives (may be an error), arbitrarily late            *)
 (*   Recall(r)        the domain is obtained without asking the provider (a cache); allowed only  *)
 (*                    if it is exactly what the provider would answer for THIS request            *)
-(*   SignGroup(r, g)  one of the two groups produced by the split by account kind is signed       *)
-(*                    (account.Sign / SignGeneric / SignGenericMulti / SignBeaconAttestation(s) / *)
-(*                    SignBeaconProposal) and its signatures are put back through the index map   *)
+(*   SignStart(r, idx) a signer call (account.Sign / SignGeneric / SignGenericMulti /              *)
+(*                    SignBeaconAttestation(s) / SignBeaconProposal) is MADE: the signer is handed *)
+(*                    accounts and messages - in this protocol those of positions idx of request r *)
+(*                    itself (one of the two groups of the split by account kind: SignGroupStart)  *)
+(*   SignEnd(r)       the signer call RETURNS, arbitrarily late (a remote / threshold signer):     *)
+(*                    every action of every other request is enabled in between; the signatures    *)
+(*                    are put back through the index map                                           *)
 (*   SignerFails(r)   a signer call returns an error                                              *)
 (*   Return(r), ReturnErr(r)                                                                      *)
 EXTENDS Integers, Sequences, FiniteSets, TLC
@@ -150,9 +162,13 @@ ForkVersion(e, f) == IF e < f THEN "old" ELSE "new"
 DomainValue(q, f) == [type |-> q.type, ver |-> IF q.genesis THEN "genesis" ELSE ForkVersion(q.epoch, f)]
 NoDomain == [type |-> "none", ver |-> "none"]
 
-\* an abstract signature: who, what, under which domain value
-Sig(c, i, d) == [key |-> <<i, VerKey(c.kinds[i])>>, msg |-> MsgOf(c, i), dom |-> d]
-Absent == [key |-> <<0, "none">>]
+\* an abstract signature: who (the account at position i of request q, by the key that must verify it),
+\* what, under which domain value
+Sig(q, c, i, d) == [key |-> <<q, i, VerKey(c.kinds[i])>>, msg |-> MsgOf(c, i), dom |-> d]
+Absent == [key |-> <<0, 0, "none">>]
+
+\* what a signer call is handed, per element: the account and message of position pos of request rid
+Item(q, i) == [rid |-> q, pos |-> i]
 
 ValidCall(c) ==
     /\ c.op \in Ops
@@ -175,16 +191,19 @@ NoCall == [op |-> "none"]
 -----------------------------------------------------------------------------
 VARIABLES fork,      \* the epoch at which the chain of this history forks
           pc,        \* per request: "idle" | "called" | "waiting" (provider call outstanding) | "sign" |
-                     \*              "failed" | "done" | "error"
+                     \*              "insign" (signer call outstanding) | "failed" | "done" | "error"
           req,       \* per request: the request
           domreqs,   \* per request: the domain requests it made so far (sequence)
           dom,       \* per request: the domain value it holds (latest reply / recalled), NoDomain before
+          insign,    \* per request: the signer call in flight: items handed (in the order handed) and the
+                     \*              positions of the reply its signatures will be put at; NoSign outside a call
           signed,    \* per request: function positions signed so far -> abstract signature (or Absent)
           result     \* per request: the reply: sequence of abstract signatures, <<>> before / on error
 
-vars == <<fork, pc, req, domreqs, dom, signed, result>>
+vars == <<fork, pc, req, domreqs, dom, insign, signed, result>>
 
 EmptyFn == [i \in {} |-> Absent]
+NoSign == [items |-> <<>>, put |-> <<>>]
 
 Init ==
     /\ fork \in ForkEpochs
@@ -192,6 +211,7 @@ Init ==
     /\ req = [r \in Rids |-> NoCall]
     /\ domreqs = [r \in Rids |-> <<>>]
     /\ dom = [r \in Rids |-> NoDomain]
+    /\ insign = [r \in Rids |-> NoSign]
     /\ signed = [r \in Rids |-> EmptyFn]
     /\ result = [r \in Rids |-> <<>>]
 
@@ -202,21 +222,21 @@ Call(r, c) ==
     /\ ValidCall(c)
     /\ pc' = [pc EXCEPT ![r] = "called"]
     /\ req' = [req EXCEPT ![r] = c]
-    /\ UNCHANGED <<fork, domreqs, dom, signed, result>>
+    /\ UNCHANGED <<fork, domreqs, dom, insign, signed, result>>
 
 \* the request reaches the domain provider ...
 FetchDomain(r) ==
     /\ pc[r] = "called"
     /\ domreqs' = [domreqs EXCEPT ![r] = Append(@, DomainReq(req[r]))]
     /\ pc' = [pc EXCEPT ![r] = "waiting"]
-    /\ UNCHANGED <<fork, req, dom, signed, result>>
+    /\ UNCHANGED <<fork, req, dom, insign, signed, result>>
 
 RefetchDomain(r) ==
     /\ pc[r] = "sign"
     /\ Len(domreqs[r]) <= Len(req[r].kinds)
     /\ domreqs' = [domreqs EXCEPT ![r] = Append(@, DomainReq(req[r]))]
     /\ pc' = [pc EXCEPT ![r] = "waiting"]
-    /\ UNCHANGED <<fork, req, dom, signed, result>>
+    /\ UNCHANGED <<fork, req, dom, insign, signed, result>>
 
 \* ... whose reply arrives whenever it pleases: every action of every other request is enabled in
 \* between.  The reply is the chain's domain for the request that was made.
@@ -227,7 +247,7 @@ DomainResp(r) ==
             /\ UNCHANGED dom
        ELSE /\ pc' = [pc EXCEPT ![r] = "sign"]
             /\ dom' = [dom EXCEPT ![r] = DomainValue(domreqs[r][Len(domreqs[r])], fork)]
-    /\ UNCHANGED <<fork, req, domreqs, signed, result>>
+    /\ UNCHANGED <<fork, req, domreqs, insign, signed, result>>
 
 \* the domain is produced from memory instead: transparent or not at all - it is the chain's domain for
 \* the type and epoch of THIS request, whatever was asked, answered or stored for other requests
@@ -235,26 +255,72 @@ Recall(r) ==
     /\ pc[r] = "called"
     /\ pc' = [pc EXCEPT ![r] = "sign"]
     /\ dom' = [dom EXCEPT ![r] = DomainValue(DomainReq(req[r]), fork)]
-    /\ UNCHANGED <<fork, req, domreqs, signed, result>>
+    /\ UNCHANGED <<fork, req, domreqs, insign, signed, result>>
 
-\* the signature put at position i by a signer call that was handed (account i, message i, domain d)
-Produced(c, i, d) == IF c.fail = "nilsig" /\ c.failidx = i THEN Absent ELSE Sig(c, i, d)
+\* the signature a signer returns for item it when it is handed the domain d
+Produced(it, d) ==
+    LET c == req[it.rid]
+    IN IF c.fail = "nilsig" /\ c.failidx = it.pos THEN Absent ELSE Sig(it.rid, c, it.pos, d)
 
-\* a signer call covering the positions in idx (a sequence without repetitions): the general step,
-\* the property does not prescribe how positions are grouped into calls
+NoRepeats(s) == \A j, k \in 1..Len(s) : j # k => s[j] # s[k]
+OwnItems(r, idx) == [j \in 1..Len(idx) |-> Item(r, idx[j])]
+
+\* a signer call is made: the general step - the signer is handed `items` (whose accounts and messages they
+\* are is written down, not assumed), and the j-th signature it returns will be put at position put[j] of
+\* request r's reply
+SignStartWith(r, items, put) ==
+    /\ pc[r] = "sign"
+    /\ req[r].fail # "signer"
+    /\ Len(put) >= 1
+    /\ Len(items) = Len(put)
+    /\ NoRepeats(put)
+    /\ Range(put) \subseteq (1..Len(req[r].kinds)) \ DOMAIN signed[r]
+    /\ \A j \in 1..Len(items) : /\ items[j].rid \in Rids
+                                 /\ req[items[j].rid] # NoCall
+                                 /\ items[j].pos \in 1..Len(req[items[j].rid].kinds)
+    /\ insign' = [insign EXCEPT ![r] = [items |-> items, put |-> put]]
+    /\ pc' = [pc EXCEPT ![r] = "insign"]
+    /\ UNCHANGED <<fork, req, domreqs, dom, signed, result>>
+
+\* the protocol: a signer call of request r covers positions idx (a sequence without repetitions) of r -
+\* the property does not prescribe how positions are grouped into calls - and is handed r's own accounts
+\* and messages of exactly those positions
+SignStart(r, idx) == SignStartWith(r, OwnItems(r, idx), idx)
+
+\* the signer call returns - whenever it pleases: every action of every other request is enabled between
+\* SignStart and SignEnd - and its signatures go where the index map says
+SignEnd(r) ==
+    /\ pc[r] = "insign"
+    /\ LET c == insign[r]
+           sigs == [j \in 1..Len(c.items) |-> Produced(c.items[j], dom[r])]   \* what the call returns, in the order handed
+       IN signed' = [signed EXCEPT ![r] = [i \in DOMAIN signed[r] \cup Range(c.put) |->
+                        IF i \in DOMAIN signed[r] THEN signed[r][i]
+                        ELSE sigs[CHOOSE j \in 1..Len(c.put) : c.put[j] = i]]]   \* the index map
+    /\ insign' = [insign EXCEPT ![r] = NoSign]
+    /\ pc' = [pc EXCEPT ![r] = "sign"]
+    /\ UNCHANGED <<fork, req, domreqs, dom, result>>
+
+\* what the code does: the two groups of the split, one call (or one loop of calls) each
+SignGroupStart(r, g) ==
+    /\ pc[r] = "sign"
+    /\ Len(Groups(req[r].kinds)[g]) >= 1
+    /\ SignStart(r, Groups(req[r].kinds)[g])
+
+\* SignStart and SignEnd in one step.  With ONE request per history nothing can happen between the two, so
+\* the single-request configurations (MC_Signer.cfg, MC_Signer_big.cfg: every request of the constants) use
+\* this step (NextAtomic); every configuration with more than one request uses the split one (Next).
 SignSome(r, idx) ==
     /\ pc[r] = "sign"
     /\ req[r].fail # "signer"
     /\ Len(idx) >= 1
-    /\ \A j, k \in 1..Len(idx) : j # k => idx[j] # idx[k]
+    /\ NoRepeats(idx)
     /\ Range(idx) \subseteq (1..Len(req[r].kinds)) \ DOMAIN signed[r]
-    /\ LET sigs == Map(LAMBDA i : Produced(req[r], i, dom[r]), idx)   \* what the group call returns, in group order
+    /\ LET sigs == Map(LAMBDA i : Produced(Item(r, i), dom[r]), idx)
        IN signed' = [signed EXCEPT ![r] = [i \in DOMAIN signed[r] \cup Range(idx) |->
                         IF i \in DOMAIN signed[r] THEN signed[r][i]
-                        ELSE sigs[CHOOSE j \in 1..Len(idx) : idx[j] = i]]]   \* the index map
-    /\ UNCHANGED <<fork, pc, req, domreqs, dom, result>>
+                        ELSE sigs[CHOOSE j \in 1..Len(idx) : idx[j] = i]]]
+    /\ UNCHANGED <<fork, pc, req, domreqs, dom, insign, result>>
 
-\* what the code does: the two groups of the split, one call (or one loop) each
 SignGroup(r, g) ==
     /\ pc[r] = "sign"
     /\ Len(Groups(req[r].kinds)[g]) >= 1
@@ -264,37 +330,49 @@ SignerFails(r) ==
     /\ pc[r] = "sign"
     /\ req[r].fail = "signer"
     /\ pc' = [pc EXCEPT ![r] = "failed"]
-    /\ UNCHANGED <<fork, req, domreqs, dom, signed, result>>
+    /\ UNCHANGED <<fork, req, domreqs, dom, insign, signed, result>>
 
 Return(r) ==
     /\ pc[r] = "sign"
     /\ DOMAIN signed[r] = 1..Len(req[r].kinds)
     /\ result' = [result EXCEPT ![r] = [i \in 1..Len(req[r].kinds) |-> signed[r][i]]]
     /\ pc' = [pc EXCEPT ![r] = "done"]
-    /\ UNCHANGED <<fork, req, domreqs, dom, signed>>
+    /\ UNCHANGED <<fork, req, domreqs, dom, insign, signed>>
 
 ReturnErr(r) ==
     /\ pc[r] = "failed"
     /\ result' = [result EXCEPT ![r] = <<>>]
     /\ pc' = [pc EXCEPT ![r] = "error"]
-    /\ UNCHANGED <<fork, req, domreqs, dom, signed>>
+    /\ UNCHANGED <<fork, req, domreqs, dom, insign, signed>>
 
 Next ==
-    \/ \E r \in Rids, c \in Calls : Call(r, c)
+    \/ \E r \in Rids : pc[r] = "idle" /\ \E c \in Calls : Call(r, c)      \* (guard first: Calls is large)
+    \/ \E r \in Rids :
+          \/ FetchDomain(r) \/ RefetchDomain(r) \/ DomainResp(r) \/ Recall(r)
+          \/ \E g \in {1, 2} : SignGroupStart(r, g)
+          \/ SignEnd(r)
+          \/ SignerFails(r)
+          \/ Return(r) \/ ReturnErr(r)
+
+Spec == Init /\ [][Next]_vars
+
+NextAtomic ==
+    \/ \E r \in Rids : pc[r] = "idle" /\ \E c \in Calls : Call(r, c)      \* (guard first: Calls is large)
     \/ \E r \in Rids :
           \/ FetchDomain(r) \/ RefetchDomain(r) \/ DomainResp(r) \/ Recall(r)
           \/ \E g \in {1, 2} : SignGroup(r, g)
           \/ SignerFails(r)
           \/ Return(r) \/ ReturnErr(r)
 
-Spec == Init /\ [][Next]_vars
+SpecAtomic == Init /\ [][NextAtomic]_vars
 
 -----------------------------------------------------------------------------
 TypeOK ==
     /\ fork \in Int
     /\ \A r \in Rids :
-          /\ pc[r] \in {"idle", "called", "waiting", "sign", "failed", "done", "error"}
+          /\ pc[r] \in {"idle", "called", "waiting", "sign", "insign", "failed", "done", "error"}
           /\ DOMAIN signed[r] \subseteq 1..MaxBatch
+          /\ (pc[r] = "insign") = (insign[r] # NoSign)
 
 \* C06: the domain asked for is the domain type of the duty at the fork of the duty's epoch (or the
 \* genesis domain for builder registrations), and nothing else is ever asked for
@@ -318,6 +396,19 @@ OwnDomain(r) ==
 Memoryless ==
     \A r \in Rids : req[r] # NoCall => dom[r] \in {NoDomain, OwnDomain(r)}
 
+\* C06 over histories, signing phase (Memoryless at batch level): whatever a signer call of request r is
+\* handed is r's own - the account and the message of the very position of r's reply its signature will be
+\* put at - whichever other requests started, were split, signed or returned since r was split.  Working
+\* storage shared between requests (a pool, a scratch buffer on the service) must be invisible here.
+HandedOwn ==
+    \A r \in Rids : \A j \in 1..Len(insign[r].items) :
+        insign[r].items[j] = Item(r, insign[r].put[j])
+
+\* a reply, once returned, is the caller's: nothing that happens later on the service changes it
+ReplyStable ==
+    [][\A r \in Rids : pc[r] \in {"done", "error"} => /\ pc'[r] = pc[r]
+                                                      /\ result'[r] = result[r]]_vars
+
 \* C06: a reply carries one signature per account; position i is by account i's verification key,
 \* over message i, under the domain of the duty's own type and epoch (or is explicitly absent when the
 \* signer gave none)
@@ -326,7 +417,7 @@ SigCorrect ==
         /\ Len(result[r]) = Len(req[r].kinds)
         /\ \A i \in 1..Len(result[r]) :
               \/ result[r][i] = Absent /\ req[r].fail = "nilsig" /\ req[r].failidx = i
-              \/ /\ result[r][i].key = <<i, VerKey(req[r].kinds[i])>>
+              \/ /\ result[r][i].key = <<r, i, VerKey(req[r].kinds[i])>>
                  /\ result[r][i].msg = MsgOf(req[r], i)
                  /\ result[r][i].dom = OwnDomain(r)
 
